@@ -1,17 +1,23 @@
 (** C01 — memoisation is transparent.  Property theorems only. *)
 From Coq Require Import List ZArith Bool.
-From MX Require Import Exec.Model Exec.Spec Exec.Sim Exec.Top.
+From MX Require Import Exec.Model Exec.Spec Exec.Sim Exec.Top Exec.FinMask.
 Import ListNotations.
 
 (** Whatever elements were requested before and in whatever order (any list
     of evaluations [ops] from the initial state, whatever they returned), a
     call returns the value of the uncached specification evaluator, which
     interprets the formula as a pure function of the definitions; an error
-    other than the recursion-depth limit is the specification's error. *)
+    other than the recursion-depth limit is the specification's error.
+    With try/finally ([SFin]) the failure of a clean-up replaces ANY pending
+    failure, the depth-limit error included (the old exclusion [k = KDeep] no
+    longer suffices: [Exec/FinMask.v] refutes the statement without the new
+    hypothesis).  [s_masks] is a ghost counter of exactly these events;
+    [s_masks st' = s_masks st] says that none happened during the request.
+    It holds trivially for definitions without [SFin]. *)
 Theorem C01_transparent : forall fuel cells refs maxd ops xs st i x st',
   forallb is_eval ops = true ->
   run fuel (init cells refs maxd) ops = (xs, st) -> no_fuel_out xs ->
-  step fuel st (OpEval i) = (x, st') -> x <> OFuel ->
+  step fuel st (OpEval i) = (x, st') -> x <> OFuel -> s_masks st' = s_masks st ->
   match x with
   | OVal v => exists g, sp_node g (cells, refs) [] i = Val v
   | OErr k => k = KDeep \/ exists g, sp_node g (cells, refs) [] i = Err k
@@ -24,7 +30,7 @@ Print Assumptions C01_transparent.
     computed value is the specification's value), which evaluation preserves *)
 Theorem C01_transparent_inv : forall fuel st i r st',
   eval_top fuel st i = (r, st') -> r <> OutOfFuel -> Inv st ->
-  Inv st' /\ frame st st' /\ agrees r (fun g => spec_eval g st i).
+  Inv st' /\ frame st st' /\ (s_masks st' = s_masks st -> agrees r (fun g => spec_eval g st i)).
 Proof. exact eval_top_sim. Qed.
 Print Assumptions C01_transparent_inv.
 
